@@ -103,7 +103,7 @@ def beh_signature(b):
 
 # --------------------------------------------------------------------------- TLC pieces
 def tables(ctx):
-    r = ctx.tlc(MOD, "MC_Tables.tla", "MC_Tables.cfg", workers=1, timeout=300, heap="2g", tag="tables", count=False)
+    r = ctx.tlc(MOD, "MC_Tables.tla", "MC_Tables.cfg", workers=1, timeout=300, heap="2g", tag="tables")
     i = r.out.find('<< "C03TABLES"')
     if i < 0:
         raise vf.MachineryError("MC_Tables did not print the universe tables")
@@ -185,8 +185,6 @@ def key_parity(ctx, names):
 
 def run(ctx, replay_path):
     thorough = ctx.tier == "thorough"
-    # vf.violation writes replay files under /verif/evidence/replays whatever VERIF_EVIDENCE_DIR says
-    os.makedirs(os.path.join(vf.VERIF, "evidence", "replays"), exist_ok=True)
     ctx.cov["rule"] = (
         "model: TLC exhausts CacheKey.tla for every family of colliding preimages x every key function "
         "kdom->0..KMax x all action sequences up to MaxSteps; conformance: simulated behaviours replayed on the "
@@ -212,7 +210,8 @@ def run(ctx, replay_path):
         if "behaviour" not in r:
             raise vf.MachineryError("replay file carries no behaviour (key-parity cases replay through the seed)")
         tb = tables(ctx)
-        replay(ctx, tb, [r["behaviour"]], "replay", extra={"onlyFamily": r.get("family", ""), "variant": r.get("variant")})
+        replay(ctx, tb, [r["behaviour"]], "replay", extra={"onlyFamily": r.get("family", ""), "variant": r.get("variant"),
+                                                                "indexOffset": r.get("behaviourIndex", 0)})
         return
 
     tb = tables(ctx)
